@@ -106,7 +106,7 @@ func runWorker(o *orchOpts, dir string, shard, shards int, secs float64, race bo
 	if doFixed {
 		args = append(args, "--fixed")
 	}
-	ctx, cancel := context.WithTimeout(context.Background(), time.Duration((secs*2+180)*float64(time.Second)))
+	ctx, cancel := context.WithTimeout(context.Background(), time.Duration((secs+150)*float64(time.Second)))
 	defer cancel()
 	cmd := exec.CommandContext(ctx, selfExe(race), args...)
 	var stderr bytes.Buffer
@@ -341,6 +341,7 @@ func CheckMain(root, id, tier string, seed uint64) int {
 	var findings []Finding
 	fixedDone, seededDone := 0, 0
 	harnessTrouble := ""
+	confirmedKinds := map[string]int{}
 	for _, wo := range outs {
 		if wo.report != nil {
 			total.Merge(wo.report.Stats)
@@ -369,6 +370,14 @@ func CheckMain(root, id, tier string, seed uint64) int {
 				harnessTrouble = "worker died before running a case:\n" + wo.died
 				continue
 			}
+			// several workers usually die of the same cause: confirm a few, not all
+			kind := "death"
+			if wo.hung || wo.exit == 3 || strings.Contains(wo.died, "WATCHDOG:") {
+				kind = "hang"
+			}
+			if confirmedKinds[kind] >= map[string]int{"hang": 1, "death": 3}[kind] {
+				continue
+			}
 			// attribute the death to the recorded case and confirm it alone
 			var sd uint64 = seed
 			c := MakeCase(p, sd, tier, *wo.cur)
@@ -381,7 +390,10 @@ func CheckMain(root, id, tier string, seed uint64) int {
 				}
 				fd := &Finding{Case: c, Ref: *wo.cur, Race: wo.race}
 				path := writeReplay(dir, "death.json", fd)
-				viol, died, hung, _ := replayChild(path, wo.race, 90*time.Second)
+				viol, died, hung, rc := replayChild(path, wo.race, 75*time.Second)
+				if rc == 3 || strings.Contains(died, "WATCHDOG:") {
+					hung = true
+				}
 				if died != "" && !hung {
 					msg, sig := panicSignature(died)
 					fd.Viol = []Violation{{Prop: id, Rule: "process-death", Detail: msg, Sig: sig}}
@@ -389,7 +401,7 @@ func CheckMain(root, id, tier string, seed uint64) int {
 					break
 				}
 				if hung {
-					fd.Viol = []Violation{{Prop: id, Rule: "hang", Detail: "the run does not terminate (watchdog)", Sig: "hang"}}
+					fd.Viol = []Violation{{Prop: id, Rule: "hang", Detail: "the simulated run does not terminate: a goroutine of the server blocks forever outside the simulator's control or spins without any transport operation (30 s watchdog, reproduced alone in a fresh process)", Sig: "hang"}}
 					confirmed = fd
 					break
 				}
@@ -403,6 +415,8 @@ func CheckMain(root, id, tier string, seed uint64) int {
 				harnessTrouble = "worker died but the recorded case does not reproduce it alone:\n" + wo.died
 				continue
 			}
+			confirmedKinds[kind]++
+			harnessTrouble = ""
 			findings = append(findings, *confirmed)
 		}
 	}
@@ -470,7 +484,7 @@ func CheckMain(root, id, tier string, seed uint64) int {
 			if v.Rule == "process-death" && died != "" {
 				confirmed = true
 			}
-			if v.Rule == "hang" && hung {
+			if v.Rule == "hang" && (hung || strings.Contains(died, "WATCHDOG:")) {
 				confirmed = true
 			}
 			if !confirmed && attempt == 1 && min != f {
@@ -540,7 +554,10 @@ func sanitize(s string) string {
 // delta-debugger; process deaths and hangs by one child per candidate.
 func minimizeFinding(dir string, f *Finding) *Finding {
 	v := f.Viol[0]
-	if v.Rule == "process-death" || v.Rule == "hang" {
+	if v.Rule == "hang" {
+		return f // every candidate would cost a watchdog period: hangs are reported unminimised
+	}
+	if v.Rule == "process-death" {
 		best := f.Case
 		tries := 0
 		test := func(c *Case) bool {
